@@ -210,9 +210,10 @@ impl<'a> Explorer<'a> {
                 let handed: Vec<u8> = w.get_ref().data.clone();
                 let mut mf = m.clone();
                 mf.apply(&WCall::Flush);
-                match w.into_inner() {
-                    Err(e) => ctx.violation("into_inner/failed", &d, &format!("{:?}", e)),
-                    Ok(dest) => {
+                match std::panic::catch_unwind(std::panic::AssertUnwindSafe(move || w.into_inner())) {
+                    Err(p) => ctx.violation("into_inner/panic", &d, &crate::obs::panic_msg(p)),
+                    Ok(Err(e)) => ctx.violation("into_inner/failed", &d, &format!("{:?}", e)),
+                    Ok(Ok(dest)) => {
                         ctx.transitions += 1;
                         if dest.data.len() < handed.len() || dest.data[..handed.len()] != handed[..] {
                             ctx.violation("into_inner/earlier-bytes-not-a-prefix-of-final-output", &d, &format!("handed over {} final {}", hex(&handed), hex(&dest.data)));
